@@ -3,10 +3,17 @@
 #   tools/seed_vs_checks.sh <seeded dir> <Cxx> [more Cxx...]   (quick tier, seed from VERIF_SEED)
 set -u
 D=$(realpath "$1"); shift
+# other long-running checks (thorough sweeps) build from /repo too: take the repo lock
+mkdir -p /verif/work; touch /verif/work/.repo.pause
+exec 9>/verif/work/.repo.lock; flock 9
+trap 'rm -f /verif/work/.repo.pause' EXIT
 cd /repo && git diff --quiet || { echo "/repo has local changes"; exit 2; }
 git -C /repo apply "$D/patch.diff" || exit 2
 for P in "$@"; do
+  cp /verif/evidence/$P.json /verif/work/$P.evidence.keep 2>/dev/null
   ( cd /verif && ./check $P ${TIER:-quick} > "$D/check_$P.log" 2>&1; echo "$P exit=$? $(grep -c '^VIOLATION' "$D/check_$P.log") violation lines; $(grep -E '^(HELD|INCONCLUSIVE)' "$D/check_$P.log" | head -1)" )
   grep -m3 "signature:" "$D/check_$P.log"
+  # the evidence file must describe the unchanged tree: put the previous one back
+  cp /verif/evidence/$P.json "$D/evidence_$P.json" 2>/dev/null; mv /verif/work/$P.evidence.keep /verif/evidence/$P.json 2>/dev/null
 done
 git -C /repo checkout -- .
